@@ -90,7 +90,9 @@ func (e *env) bounded(opName string, input func() any, size int, fn func(ctx con
 	neverReturned[e.mode]++
 	e.c.Tag("e2e.call-never-returned." + e.mode)
 	var in any
-	if e.curErr != nil {
+	if e.histInput != nil {
+		in = e.histInput()
+	} else if e.curErr != nil {
 		in = map[string]any{"handler returns the Go error": shorten(e.curErr.Error())}
 	} else {
 		in = input()
